@@ -30,8 +30,14 @@ var Repo = func() string {
 	return "/repo"
 }()
 
-// VerifRoot is /verif.
-var VerifRoot = "/verif"
+// VerifRoot is /verif (PV_VERIF_ROOT redirects evidence/replays of background sweeps that run from a
+// snapshot; registered commands never set it). The warm build cache is always read from /verif.
+var VerifRoot = func() string {
+	if r := os.Getenv("PV_VERIF_ROOT"); r != "" {
+		return r
+	}
+	return "/verif"
+}()
 
 // Workspace is a private scratch directory, removed by Close.
 type Workspace struct {
@@ -74,7 +80,7 @@ func NewWorkspace() (*Workspace, error) {
 	os.MkdirAll(filepath.Join(dir, "tmp"), 0o755)
 	// private build cache seeded (hard links) from the warm base cache built by setup
 	cache := filepath.Join(dir, "gocache")
-	baseCache := filepath.Join(VerifRoot, ".cache", "base")
+	baseCache := filepath.Join("/verif", ".cache", "base")
 	if _, err := os.Stat(baseCache); err == nil {
 		if out, err := exec.Command("cp", "-al", baseCache, cache).CombinedOutput(); err != nil {
 			os.RemoveAll(cache)
